@@ -21,6 +21,7 @@ from ..engine import Ctx
 from ..report import Report
 from ..rules import q
 from ..rules import runtime as R
+from ..rules import valnum
 from ..rules.linear import linform
 from ..source import AnalysisError
 from ..source import norm
@@ -519,8 +520,12 @@ def partition(ctx: Ctx, rep: Report) -> None:
     up = [s for s in R.sends_in(f, 'Manager') if s.kind == 'SUBMIT_BATCH']
     rep.count(2)
     ok = len(sch) == 1 and len(up) == 1
+    a = b = None
     if ok:
-        a, b = sch[0].args[0], up[0].payload
+        # through local temporaries (`kept = tasks[:k]`)
+        a = valnum.subst(ctx, f, g.node_containing(sch[0]), sch[0].args[0])
+        b = valnum.subst(ctx, f, g.node_containing(up[0].node),
+                         up[0].payload)
         ok = isinstance(a, ast.Subscript) and isinstance(
             b, ast.Subscript) and isinstance(a.slice, ast.Slice) and (
             isinstance(b.slice, ast.Slice)) and norm(a.value) == norm(
@@ -533,6 +538,36 @@ def partition(ctx: Ctx, rep: Report) -> None:
         'tasks[:k] stay, tasks[k:] go up: every task exactly once',
         'the kept and forwarded slices of the task list are not '
         'complementary (a task is lost or duplicated)', key='slices',
+    )
+    # the count reported upstream is the count of the *kept* slice (or its
+    # bound k, the historical over-approximation) - never the surplus: the
+    # server later subtracts one per completed task of this manager
+    upd = [s for s in R.sends_in(f, 'Manager') if s.kind == 'UPDATE']
+    rep.count()
+    ok_u = ok and len(upd) == 1
+    if ok_u:
+        k = norm(a.slice.upper)
+        kept = norm(a)
+        un = g.node_containing(upd[0].node)
+        pay = norm(valnum.subst(ctx, f, un, upd[0].payload))
+        ok_u = pay in (k, f'len({kept})', f'min(len(tasks), {k})',
+                       f'min({k}, len(tasks))')
+        if pay == k:
+            rep.observe(
+                'Manager.send_up_or_schedule_tasks reports the bound '
+                f'`{k}` upstream even when fewer tasks than that are kept '
+                '(len(tasks) < idle workers): the server\'s task count for '
+                'this manager then drifts upward by the difference. C15 '
+                'claims exact quiescent counts only for a server that '
+                'manages its workers directly, so this is an observation, '
+                'not a violation.')
+    rep.check(
+        ok_u, P, 'Manager.send_up_or_schedule_tasks:count', f.path, f.lineno,
+        'upstream is told the number of tasks kept below this manager',
+        'the UPDATE sent upstream does not carry the number of tasks kept '
+        'below this manager (the bound of the kept slice tasks[:k]): the '
+        'server subtracts one per completed task and its per-employee task '
+        'count goes negative or drifts', key='kept-count',
     )
     gt = [t for t in g.nodes if t.kind == 'test' and norm(
         t.stmt.test) == 'len(tasks) > num_idle']
